@@ -10,6 +10,7 @@ func init() {
 	vHarnesses["H_C13_json"] = H_C13_json
 	vHarnesses["H_C13_getjson"] = H_C13_getjson
 	vHarnesses["H_C13_handlers"] = H_C13_handlers
+	vHarnesses["H_C13_handlers_raw"] = H_C13_handlers_raw
 }
 
 func vNondetSched(data []byte) *vSchedReader {
@@ -151,7 +152,14 @@ func vNondetJsonDocs() (stream string, docs []string) {
 	n := 1 + vChoose(2)
 	for i := 0; i < n; i++ {
 		var d string
-		switch vChoose(4) {
+		switch vChoose(6) {
+		case 5:
+			d = `{"a":"x\\"}` // value ends in an escaped backslash
+			if vChoose(2) == 1 {
+				d = `{"a\\":"\\\\"}`
+			}
+		case 4:
+			d = "{\"a\":\"x\\\"\"}" // value ends in an escaped quote
 		case 0:
 			d = "{\"a\":\"" + vNondetString(1, 1, "x{}") + "\"}"
 		case 1:
@@ -311,4 +319,46 @@ func H_C13_handlers() {
 	vAssert(calls == want, "handlers: the map handler is invoked once per document and processing stops when it returns false")
 	vAssert(okAll, "handlers: the handler receives the documents' Maps in order")
 	vCover("handlers")
+}
+
+// raw bulk handlers: the raw values handed to the handler stay valid after later documents are read
+func H_C13_handlers_raw() {
+	vResetDecOpts()
+	xml := vChoose(2) == 1
+	var stream string
+	var docs []string
+	if xml {
+		stream, docs = vNondetXmlDocs()
+	} else {
+		stream, docs = vNondetJsonDocs()
+	}
+	src := vNondetSched([]byte(stream))
+	var raws [][]byte
+	var maps []Map
+	mh := func(m Map, raw []byte) bool {
+		maps = append(maps, m)
+		raws = append(raws, raw) // kept by the caller
+		return true
+	}
+	eh := func(error, []byte) bool { return false }
+	var err error
+	if xml {
+		err = HandleXmlReaderRaw(src, mh, eh)
+	} else {
+		err = HandleJsonReaderRaw(src, mh, eh)
+	}
+	vAssert(err == nil, "raw handlers: no error on a well-formed stream")
+	vAssert(len(maps) == len(docs), "raw handlers: the handler is invoked once per document")
+	cat := ""
+	for i := range raws {
+		vAssert(vContainsStr(string(raws[i]), docs[i]) || !xml, "raw handlers: each raw value still contains its document after the whole stream has been read")
+		if !xml {
+			vAssert(string(raws[i]) == docs[i], "raw handlers: each raw value is still the object's text after the whole stream has been read")
+		}
+		cat += string(raws[i])
+	}
+	if xml {
+		vAssert(len(cat) <= len(stream) && stream[:len(cat)] == cat, "raw handlers: raw values concatenate to a prefix of the stream")
+	}
+	vCover("raw")
 }
